@@ -184,7 +184,7 @@ func Discharge(x *Exec, inst Instance, so SolveOpts) *InstResult {
 	r := &InstResult{Inst: inst, X: x, Funcs: x.FuncsEncoded, AssumeTxt: x.AssumeTxt, NInstr: x.NInstr}
 	u := x.U
 	if so.Solver == "" {
-		so.Solver = "z3"
+		so.Solver = "z3-new"
 	}
 	if so.TimeoutMs == 0 {
 		so.TimeoutMs = 120000
